@@ -5,6 +5,7 @@ from hypothesis import strategies as st
 from hypothesis.stateful import RuleBasedStateMachine, initialize, invariant, precondition, rule
 from metapype.model.node import Node, Shift
 
+from vf import treegen
 from vf.runner import CaseTimeout, Violation, hyp_machine, hyp_search, machine_violation, time_limit
 
 ID = "C09"
@@ -108,6 +109,21 @@ class Model:
             return "ValueError"
         elif k in ("badrem", "badshift", "badrep"):
             return "ValueError"
+        elif k == "copy":
+            # a deep copy of the subtree becomes a new, independent tree of the forest (new indices, pre-order)
+            src = [op[1]] + self.pre(op[1])
+            new = {x: len(self.names) + i for i, x in enumerate(src)}
+            if not isinstance(self.names, list):
+                self.names = list(self.names)
+            for x in src:
+                self.names.append(self.names[x])
+                self.par.append(None)
+                self.kids.append([])
+            for x in src:
+                self.kids[new[x]] = [new[c] for c in self.kids[x]]
+                for c in self.kids[x]:
+                    self.par[new[c]] = new[x]
+            return None
         elif k == "shift":
             _, p, c, d, sib = op
             L = self.kids[p]
@@ -155,6 +171,9 @@ def _real_apply(nodes, op):
             return nodes[op[1]].shift(nodes[op[2]], Shift.RIGHT if op[3] else Shift.LEFT, bool(op[4]))
         elif k == "badshift":
             return nodes[op[1]].shift(nodes[op[2]], Shift.RIGHT, True)
+        elif k == "copy":
+            c = nodes[op[1]].copy()
+            nodes.extend(treegen.nodes(c))      # pre-order, as the model numbers them
     except ValueError:
         return "ValueError"
     except Exception as e:  # noqa
@@ -413,6 +432,7 @@ class TreeMachine(RuleBasedStateMachine):
     def setup(self, names):
         Node.store.clear()
         self.names = list(names)
+        self.names0 = list(names)      # the universe the history starts from (copies add to self.names)
         self.nodes = [Node(nm) for nm in names]
         self.m = Model(self.names)
         self.dead = set()
@@ -420,17 +440,14 @@ class TreeMachine(RuleBasedStateMachine):
         self.nontrivial = False
 
     def fail(self, bucket, msg):
-        machine_violation(self, bucket, msg, {"names": self.names, "history": [list(o) for o in self.history]})
-        # only reached when the bucket is already confirmed: re-synchronise the model with the real forest
-        idx = {id(n): i for i, n in enumerate(self.nodes)}
-        for i, n in enumerate(self.nodes):
-            self.m.kids[i] = [idx[id(c)] for c in n.children if id(c) in idx]
-        self.m.par = [None] * len(self.nodes)
-        for i, ks in enumerate(self.m.kids):
-            for c in ks:
-                self.m.par[c] = i
+        machine_violation(self, bucket, msg, {"names": self.names0, "history": [list(o) for o in self.history]})
+        # only reached when the bucket is already confirmed and excluded: the real forest no longer follows the model
+        # (with a broken library it may not even be a forest any more), so the rest of this run is not judged
+        self.stop = True
 
     def do(self, op):
+        if getattr(self, "stop", False):
+            return
         self.history.append(op)
         before = [list(n.children) for n in self.nodes]
         r1 = real_apply(self.nodes, op)
@@ -497,6 +514,18 @@ class TreeMachine(RuleBasedStateMachine):
             self.do(("rep", p, c, nw, int(delete)))
 
     @rule(data=st.data())
+    def copy_subtree(self, data):
+        """a copy joins the forest as a tree of its own; later edits on either side must stay on that side"""
+        if len(self.m.names) >= 26:
+            return
+        cands = [x for x in self.alive() if len(self.m.pre(x)) <= 5]
+        if not cands:
+            return
+        x = data.draw(st.sampled_from(cands))
+        self.do(("copy", x))
+        self.names = self.m.names
+
+    @rule(data=st.data())
     def failing(self, data):
         p = data.draw(st.sampled_from(self.alive()))
         others = [c for c in self.alive() if c != p and c not in self.m.kids[p]]
@@ -515,7 +544,7 @@ class TreeMachine(RuleBasedStateMachine):
 
     @invariant()
     def agrees(self):
-        if not hasattr(self, "m"):
+        if not hasattr(self, "m") or getattr(self, "stop", False):
             return
         d = structure_diff(self.nodes, self.m)
         if d:
@@ -527,10 +556,10 @@ class TreeMachine(RuleBasedStateMachine):
     def teardown(self):
         if hasattr(self, "m"):
             ctx = type(self).vf_state["ctx"]
-            ctx.note(key=(self.names, self.history), nontrivial=self.nontrivial,
+            ctx.note(key=(self.names0, self.history), nontrivial=self.nontrivial,
                      cls="history-with-shift/replace-among-3+" if self.nontrivial else "history-other")
             if self.nontrivial and 6 <= len(self.history) <= 14:
-                ctx.sample("machine-history", {"names": self.names, "history": [list(o) for o in self.history]})
+                ctx.sample("machine-history", {"names": self.names0, "history": [list(o) for o in self.history]})
 
 
 # ------------------------------------------------------------------ larger trees (wide / deep), edits then queries
